@@ -45,6 +45,50 @@ def grammar_labels(which):
     return sorted(binary), sorted(unary)
 
 
+def open_vocabulary(which):
+    """label / symbol expressions of the grammar that are COMPUTED (f-string, concatenation, call, table lookup) rather than written as literals or passed through from a
+    helper's own parameters: then the vocabulary cannot be enumerated from the source and the closure obligation below is undecided, not discharged"""
+    tree = parse_source(f'depccg/grammar/{which}.py')
+    funcs = [fn for fn in ast.walk(tree) if isinstance(fn, ast.FunctionDef)]
+    helpers = {}
+    for fn in funcs:
+        names = [a.arg for a in fn.args.posonlyargs + fn.args.args]
+        idx = [i for i, a in enumerate(names) if a in ('op_string', 'op_symbol', 'label', 'symbol')]
+        if idx:
+            helpers[fn.name] = (names, idx)
+    out = []
+    for fn in funcs:
+        params = {a.arg for a in fn.args.posonlyargs + fn.args.args + fn.args.kwonlyargs}
+        assigned = {}
+        for st in ast.walk(fn):
+            if isinstance(st, ast.Assign) and len(st.targets) == 1 and isinstance(st.targets[0], ast.Name):
+                assigned.setdefault(st.targets[0].id, []).append(st.value)
+
+        def fixed(e, depth=0):
+            if isinstance(e, ast.Constant):
+                return True
+            if isinstance(e, ast.Name) and e.id in assigned and e.id not in params and depth < 4:
+                return all(fixed(v, depth + 1) for v in assigned[e.id])     # a local bound to literals / harvested calls only
+            if isinstance(e, ast.IfExp):
+                return fixed(e.body, depth) and fixed(e.orelse, depth)
+            if isinstance(e, ast.Name) and e.id in params:
+                return True          # passed through: the call sites of this helper are looked at in their own right
+            if isinstance(e, ast.Call) and getattr(e.func, 'id', None) == '_unary_rule_symbol':
+                return True          # its returns are harvested
+            return False
+        for n in ast.walk(fn):
+            if not isinstance(n, ast.Call):
+                continue
+            vals = [k.value for k in n.keywords if k.arg in ('op_string', 'op_symbol', 'label', 'symbol')]
+            h = helpers.get(getattr(n.func, 'id', None))
+            if h is not None:
+                vals += [n.args[i] for i in h[1] if i < len(n.args)]
+            for v in vals:
+                if not fixed(v):
+                    out.append(f'depccg/grammar/{which}.py:{n.lineno} label computed as `{ast.unparse(v)[:60]}`')
+    return sorted(set(out))
+
+
 def vocabulary_obligations():
     """noraise of the table lookups of the Prolog encoders: every label the rule functions can return is a key of the table indexed with it"""
     recs = []
@@ -60,7 +104,11 @@ def vocabulary_obligations():
         ok = s2 in jac
         recs.append(dict(name=f'{PROP}/depccg/printer/prolog.py::to_prolog_ja/noraise: _ja_combinators[{s2!r}]', kind='noraise', verdict='discharged' if ok else 'failed', backend='pyvc-structural',
                          ms=0, inputs=None, detail=f'symbol {s2} emitted by grammar/ja.py', witness=dict(table='_ja_combinators', label=s2)))
-    # the Japanese bank reader recognises every symbol ja_of can print (used by C20 as well)
+    for which in ('en', 'ja'):
+        comp = open_vocabulary(which)
+        recs.append(dict(name=f'{PROP}/depccg/grammar/{which}.py/label vocabulary is enumerable from the source', kind='noraise', verdict='discharged' if not comp else 'unknown',
+                         backend='pyvc-structural', ms=0, inputs=None, detail=comp or 'every label and symbol of a rule result is a literal (or a conditional of literals)',
+                         witness=dict(sites=comp) if comp else None))
     return recs
 
 
